@@ -139,6 +139,29 @@ def shard_programs(cfgname, seed, count):
         if rng.random() < 0.5:
             # interrupts, resets and events arriving between instructions
             case['inject'] = {str(rng.randrange(0, n)): rng.choice(INJECT) for _ in range(rng.randrange(1, 4))}
+        if rng.random() < 0.25:
+            # the embedder re-arranges the memory map while the program runs: a larger device (two whole 4 KiB pages) plugged in behind the others is used by
+            # loads / stores, then unplugged or its window moved, and the same addresses are used again (now unmapped: reads give zero, writes are dropped)
+            n = case['steps'] = max(n, 8)
+            case['mems'].append([0x40000, 0x2000])
+            for r_ in range(8):
+                case['state']['R.R%dusr' % r_] = 0x40000 + rng.choice((0xF00, 0x1000, 0xFF0, 0x80, 0x1F00)) + 4 * rng.randrange(8)
+            words = []
+            for k_ in range(24):
+                t_, b_, im_ = rng.randrange(8), rng.randrange(8), rng.randrange(8)
+                if rng.random() < 0.65:
+                    ld = rng.random() < 0.5
+                    words.append(e1.enc_thumb((0x6800 if ld else 0x6000) | (im_ << 6) | (b_ << 3) | t_) if thumb else
+                                 e1.enc_arm((0xE5900000 if ld else 0xE5800000) | (b_ << 16) | (t_ << 12) | (im_ << 2)))
+                else:
+                    words.append(code[k_ * (2 if thumb else 4):][:2 if thumb else 4])
+            code = b''.join(words)
+            case['poke'][0][1] = code.hex()
+            inj = dict(case.get('inject') or {})
+            inj[str(rng.randrange(2, n - 2))] = rng.choice((['hub', 'pop'], ['hub', 'pop'], ['hub', 'move', len(case['mems']) - 1, rng.choice((0x100000, 0x41000, 0x3F000))],
+                                                         ['hub', 'move', rng.randrange(len(case['mems']) - 1), 0x42000]))
+            case['inject'] = inj
+            acc.cls('program:memory-map-changed-while-running')
         check_case(acc, case, 'program', ('prog', cfgname, code, n, case['state']['cpsr'], tuple(sorted((case.get('inject') or {}).items()))))
     return acc
 
